@@ -1145,4 +1145,363 @@ theorem preFrom_sorted {all : List Seg} : ∀ (l : List Seg) (i : Nat),
       simp only
       omega
 
+/-! ### an edge contained in another parent is a piece of that parent too -/
+
+theorem col_of_two_common {s t : Seg} {u v : Pt} (huv : u ≠ v)
+    (h1 : OnSeg s.a s.b u) (h2 : OnSeg s.a s.b v) (h3 : OnSeg t.a t.b u) (h4 : OnSeg t.a t.b v) :
+    Col s t := by
+  obtain ⟨x1, _, _, hu1⟩ := (onSeg_iff_along s u).mp h1
+  obtain ⟨x2, _, _, hv1⟩ := (onSeg_iff_along s v).mp h2
+  obtain ⟨y1, _, _, hu2⟩ := (onSeg_iff_along t u).mp h3
+  obtain ⟨y2, _, _, hv2⟩ := (onSeg_iff_along t v).mp h4
+  have a1 : s.a.1 + x1 * s.d.1 = t.a.1 + y1 * t.d.1 := congrArg Prod.fst (hu1.symm.trans hu2)
+  have a2 : s.a.2 + x1 * s.d.2 = t.a.2 + y1 * t.d.2 := congrArg Prod.snd (hu1.symm.trans hu2)
+  have b1 : s.a.1 + x2 * s.d.1 = t.a.1 + y2 * t.d.1 := congrArg Prod.fst (hv1.symm.trans hv2)
+  have b2 : s.a.2 + x2 * s.d.2 = t.a.2 + y2 * t.d.2 := congrArg Prod.snd (hv1.symm.trans hv2)
+  have hne : x2 - x1 ≠ 0 := by
+    intro h
+    apply huv
+    have : x1 = x2 := by linarith
+    rw [hu1, hv1, this]
+  have key : (x2 - x1) * cross s.d t.d = 0 := by
+    simp only [cross]
+    linear_combination t.d.2 * (b1 - a1) - t.d.1 * (b2 - a2)
+  have hpar : cross s.d t.d = 0 := by
+    rcases mul_eq_zero.mp key with h | h
+    · exact absurd h hne
+    · exact h
+  exact col_of_par_common hpar h1 h3
+
+theorem mem_split_two {l : List Pt} {u v : Pt} (hu : u ∈ l) (hv : v ∈ l) (h : u ≠ v) :
+    (∃ pre mid post, l = pre ++ u :: (mid ++ v :: post)) ∨
+    (∃ pre mid post, l = pre ++ v :: (mid ++ u :: post)) := by
+  obtain ⟨a, b, rfl⟩ := List.append_of_mem hu
+  rcases List.mem_append.mp hv with hv | hv
+  · obtain ⟨c, d, rfl⟩ := List.append_of_mem hv
+    right
+    exact ⟨c, d, b, by simp⟩
+  · rcases List.mem_cons.mp hv with hv | hv
+    · exact absurd hv.symm h
+    · obtain ⟨c, d, rfl⟩ := List.append_of_mem hv
+      left
+      exact ⟨a, c, d, rfl⟩
+
+theorem consec_of_adjacent (pre post : List Pt) (u v : Pt) : (u, v) ∈ consec (pre ++ u :: v :: post) := by
+  induction pre with
+  | nil => simp [consec]
+  | cons p pre ih =>
+    cases pre with
+    | nil => simp [consec]
+    | cons q pre' =>
+      show (u, v) ∈ consec (p :: q :: (pre' ++ u :: v :: post))
+      rw [consec]
+      exact List.mem_cons_of_mem _ ih
+
+theorem adjacent_core {a : Pt} {L : List Pt} (hnd : L.Nodup)
+    (hsort : L.Pairwise (fun x y => dist2 x a ≤ dist2 y a)) {u v : Pt} {pre mid post : List Pt}
+    (hL : L = pre ++ u :: (mid ++ v :: post))
+    (hno : ∀ x ∈ L, dist2 u a ≤ dist2 x a → dist2 x a ≤ dist2 v a → x = u ∨ x = v) :
+    (u, v) ∈ consec L := by
+  subst hL
+  cases mid with
+  | nil => exact consec_of_adjacent pre post u v
+  | cons x m =>
+    exfalso
+    have h2 := (List.pairwise_append.mp hsort).2.1
+    have h3 := List.pairwise_cons.mp h2
+    have hux : dist2 u a ≤ dist2 x a := h3.1 x (by simp)
+    have h4 := List.pairwise_cons.mp h3.2
+    have hxv : dist2 x a ≤ dist2 v a := h4.1 v (by simp)
+    have n2 := (List.nodup_append.mp hnd).2.1
+    have n3 := List.nodup_cons.mp n2
+    have n4 := List.nodup_cons.mp n3.2
+    rcases hno x (by simp) hux hxv with h | h
+    · exact n3.1 (by rw [← h]; simp)
+    · exact n4.1 (by rw [h]; simp)
+
+theorem between_of_sorted {s : Seg} (hs : s.nondeg) {u x v : Pt}
+    (hu : OnSeg s.a s.b u) (hx : OnSeg s.a s.b x) (hv : OnSeg s.a s.b v)
+    (h1 : dist2 u s.a ≤ dist2 x s.a) (h2 : dist2 x s.a ≤ dist2 v s.a) : OnSeg u v x := by
+  have hd := d_ne_zero hs
+  have hD := normSq_pos hd
+  obtain ⟨xu, u0, _, rfl⟩ := (onSeg_iff_along s u).mp hu
+  obtain ⟨xx, x0, _, rfl⟩ := (onSeg_iff_along s x).mp hx
+  obtain ⟨xv, v0, _, rfl⟩ := (onSeg_iff_along s v).mp hv
+  rw [dist2_along, dist2_along] at h1 h2
+  exact (onSeg_along_iff hd xu xv xx).mpr (Or.inl ⟨sq_mono u0 x0 hD h1, sq_mono x0 v0 hD h2⟩)
+
+theorem pieces_of_no_between {segs : List Seg} {s : Seg} (hs : s.nondeg) {u v : Pt}
+    (hu : u ∈ splitPts segs s) (hv : v ∈ splitPts segs s) (huv : u ≠ v)
+    (hno : ∀ x ∈ splitPts segs s, OnSeg u v x → x = u ∨ x = v) :
+    (u, v) ∈ pieces segs s ∨ (v, u) ∈ pieces segs s := by
+  have hnd := nodup_sortFrom s.a _ (nodup_dedup (s.a :: s.b :: segs.flatMap (inter s)))
+  have hsort := pairwise_sortFrom s.a (splitPts segs s)
+  have hus := splitPts_onSeg hs hu
+  have hvs := splitPts_onSeg hs hv
+  rcases mem_split_two ((mem_sortFrom s.a u _).mpr hu) ((mem_sortFrom s.a v _).mpr hv) huv with
+    ⟨pre, mid, post, hL⟩ | ⟨pre, mid, post, hL⟩
+  · left
+    refine adjacent_core hnd hsort hL ?_
+    intro x hx h1 h2
+    have hxs := (mem_sortFrom s.a x _).mp hx
+    exact hno x hxs (between_of_sorted hs hus (splitPts_onSeg hs hxs) hvs h1 h2)
+  · right
+    refine adjacent_core hnd hsort hL ?_
+    intro x hx h1 h2
+    have hxs := (mem_sortFrom s.a x _).mp hx
+    exact (hno x hxs (onSeg_symm (between_of_sorted hs hvs (splitPts_onSeg hs hxs) hus h1 h2))).symm
+
+theorem edge_is_piece_of_container {segs : List Seg} (hall : ∀ u ∈ segs, u.nondeg) {s t : Seg}
+    (hs : s ∈ segs) (ht : t ∈ segs) {u v : Pt} (he : (u, v) ∈ pieces segs t)
+    (h1 : OnSeg s.a s.b u) (h2 : OnSeg s.a s.b v) :
+    (u, v) ∈ pieces segs s ∨ (v, u) ∈ pieces segs s := by
+  have hsn := hall s hs
+  have htn := hall t ht
+  have hm := pieces_mem he
+  have hut := splitPts_onSeg htn hm.1
+  have hvt := splitPts_onSeg htn hm.2
+  have huv := pieces_ne he
+  have hc : Col t s := col_of_two_common huv hut hvt h1 h2
+  have hcs : Col s t := Col.symm' htn hc
+  have hus := splitPts_transfer hall ht hs hc hm.1 h1
+  have hvs := splitPts_transfer hall ht hs hc hm.2 h2
+  apply pieces_of_no_between hsn hus hvs huv
+  intro x hx hb
+  have hxt : OnSeg t.a t.b x := onSeg_trans hut hvt hb
+  exact piece_no_interior htn he (splitPts_transfer hall hs ht hcs hx hxt) hb
+
+theorem preFrom_of_piece_idx {all : List Seg} : ∀ (l : List Seg) (i k : Nat) (s : Seg) (pc : Pt × Pt),
+    l[k]? = some s → pc ∈ pieces all s →
+    ∃ e ∈ preFrom all i l, e.p = pc.1 ∧ e.q = pc.2 ∧ e.parent = i + k ∧ e.tags = s.tags := by
+  intro l
+  induction l with
+  | nil => intro i k s pc hk; simp at hk
+  | cons s0 rest ih =>
+    intro i k s pc hk hpc
+    unfold preFrom
+    cases k with
+    | zero =>
+      simp at hk
+      subst hk
+      exact ⟨⟨pc.1, pc.2, i, s0.tags⟩, List.mem_append_left _ (List.mem_map.mpr ⟨pc, hpc, rfl⟩),
+        rfl, rfl, rfl, rfl⟩
+    | succ k =>
+      have hk' : rest[k]? = some s := by simpa using hk
+      obtain ⟨e, he, a, b, c, d⟩ := ih (i + 1) k s pc hk' hpc
+      exact ⟨e, List.mem_append_right _ he, a, b, by omega, d⟩
+
+/-! ### candidate pairs of the bounding-box prefilter -/
+theorem boxesOverlapB_iff (s t : Seg) : boxesOverlapB s t = true ↔ boxesOverlap s t := by
+  simp [boxesOverlapB, boxesOverlap, and_assoc]
+
+theorem mem_pairsWith (i : Nat) (s : Seg) : ∀ (l : List Seg) (j k : Nat) (t : Seg),
+    l[k]? = some t → boxesOverlapB s t = true → (i, j + k) ∈ pairsWith i s j l := by
+  intro l
+  induction l with
+  | nil => intro j k t hk; simp at hk
+  | cons t0 rest ih =>
+    intro j k t hk hb
+    unfold pairsWith
+    cases k with
+    | zero =>
+      simp at hk
+      subst hk
+      rw [if_pos hb]
+      exact List.mem_cons_self
+    | succ k =>
+      have hk' : rest[k]? = some t := by simpa using hk
+      have := ih (j + 1) k t hk' hb
+      have e : j + 1 + k = j + (k + 1) := by omega
+      rw [e] at this
+      split_ifs
+      · exact List.mem_cons_of_mem _ this
+      · exact this
+
+theorem mem_pairsFrom : ∀ (l : List Seg) (i0 a b : Nat) (s t : Seg),
+    l[a]? = some s → l[b]? = some t → a < b → boxesOverlapB s t = true →
+    (i0 + a, i0 + b) ∈ pairsFrom i0 l := by
+  intro l
+  induction l with
+  | nil => intro i0 a b s t ha; simp at ha
+  | cons s0 rest ih =>
+    intro i0 a b s t ha hb hab hov
+    unfold pairsFrom
+    cases b with
+    | zero => omega
+    | succ b =>
+      have hb' : rest[b]? = some t := by simpa using hb
+      cases a with
+      | zero =>
+        simp at ha
+        subst ha
+        have := mem_pairsWith i0 s0 rest (i0 + 1) b t hb' hov
+        have e : i0 + 1 + b = i0 + (b + 1) := by omega
+        rw [e] at this
+        exact List.mem_append_left _ this
+      | succ a =>
+        have ha' : rest[a]? = some s := by simpa using ha
+        have := ih (i0 + 1) a b s t ha' hb' (by omega) hov
+        have e1 : i0 + 1 + a = i0 + (a + 1) := by omega
+        have e2 : i0 + 1 + b = i0 + (b + 1) := by omega
+        rw [e1, e2] at this
+        exact List.mem_append_right _ this
+
+/-! ### the early-return branch (no intersection found) -/
+theorem pairwise_mem_ne {α : Type} {R : α → α → Prop} (hsym : ∀ a b, R a b → R b a) :
+    ∀ {l : List α}, l.Pairwise R → ∀ a ∈ l, ∀ b ∈ l, a ≠ b → R a b := by
+  intro l
+  induction l with
+  | nil => intro _ a ha; cases ha
+  | cons x l ih =>
+    intro h a ha b hb hne
+    have hp := List.pairwise_cons.mp h
+    rcases List.mem_cons.mp ha with ea | ha'
+    · rcases List.mem_cons.mp hb with eb | hb'
+      · exact absurd (ea.trans eb.symm) hne
+      · rw [ea]; exact hp.1 b hb'
+    · rcases List.mem_cons.mp hb with eb | hb'
+      · rw [eb]; exact hsym _ _ (hp.1 a ha')
+      · exact ih hp.2 a ha' b hb' hne
+
+theorem splitPts_trivial {segs : List Seg} (hall : ∀ u ∈ segs, u.nondeg) (hno : NoIsect segs)
+    {s : Seg} (hs : s ∈ segs) : ∀ x ∈ splitPts segs s, x = s.a ∨ x = s.b := by
+  intro x hx
+  rcases mem_splitPts.mp hx with h | h | ⟨u, hu, hxu⟩
+  · exact Or.inl h
+  · exact Or.inr h
+  · by_cases e : s = u
+    · subst e
+      have hpar : cross s.d s.d = 0 := by simp only [cross]; ring
+      obtain ⟨_, hend⟩ := inter_par_mem (hall s hs) hpar hxu
+      rcases hend with h | h | h | h
+      · exact Or.inl h
+      · exact Or.inr h
+      · exact Or.inl h
+      · exact Or.inr h
+    · have := (pairwise_mem_ne (fun a b h => ⟨h.2, h.1⟩) hno s hs u hu e).1
+      rw [this] at hxu
+      cases hxu
+
+theorem dist2_self (a : Pt) : dist2 a a = 0 := by simp only [dist2]; ring
+
+theorem dist2_pos {a b : Pt} (h : b ≠ a) : 0 < dist2 b a := by
+  by_contra hc
+  have hc := not_lt.mp hc
+  simp only [dist2] at hc
+  have h1 := mul_self_nonneg (b.1 - a.1)
+  have h2 := mul_self_nonneg (b.2 - a.2)
+  have e1 : (b.1 - a.1) * (b.1 - a.1) = 0 := by linarith
+  have e2 : (b.2 - a.2) * (b.2 - a.2) = 0 := by linarith
+  apply h
+  apply pt_ext
+  · have := mul_self_eq_zero.mp e1; linarith
+  · have := mul_self_eq_zero.mp e2; linarith
+
+theorem sortFrom_two {a b : Pt} (hab : a ≠ b) {L : List Pt} (hnd : L.Nodup) (ha : a ∈ L) (hb : b ∈ L)
+    (hall : ∀ x ∈ L, x = a ∨ x = b) : sortFrom a L = [a, b] := by
+  have hpos := dist2_pos (Ne.symm hab)
+  have h0 := dist2_self a
+  have s1 : sortFrom a [a, b] = [a, b] := by
+    simp only [sortFrom, insertBy]
+    rw [if_pos (by rw [h0]; exact le_of_lt hpos)]
+  have s2 : sortFrom a [b, a] = [a, b] := by
+    simp only [sortFrom, insertBy]
+    rw [if_neg (by rw [h0]; exact not_le.mpr hpos)]
+  match L, hnd, ha, hb, hall with
+  | [], _, ha, _, _ => cases ha
+  | [x], _, ha, hb, _ =>
+    simp at ha hb
+    exact absurd (ha.trans hb.symm) hab
+  | [x, y], hnd, _, _, hall =>
+    have hx := hall x (by simp)
+    have hy := hall y (by simp)
+    have hne : x ≠ y := by
+      intro e; subst e; simp at hnd
+    rcases hx with rfl | rfl <;> rcases hy with rfl | rfl
+    · exact absurd rfl hne
+    · exact s1
+    · exact s2
+    · exact absurd rfl hne
+  | x :: y :: z :: r, hnd, _, _, hall =>
+    exfalso
+    have hx := hall x (by simp)
+    have hy := hall y (by simp)
+    have hz := hall z (by simp)
+    have n1 := List.nodup_cons.mp hnd
+    have n2 := List.nodup_cons.mp n1.2
+    have xy : x ≠ y := fun e => n1.1 (by rw [e]; simp)
+    have xz : x ≠ z := fun e => n1.1 (by rw [e]; simp)
+    have yz : y ≠ z := fun e => n2.1 (by rw [e]; simp)
+    rcases hx with rfl | rfl <;> rcases hy with rfl | rfl <;> rcases hz with rfl | rfl <;>
+      first | exact xy rfl | exact xz rfl | exact yz rfl
+
+theorem pieces_trivial {segs : List Seg} (hall : ∀ u ∈ segs, u.nondeg) (hno : NoIsect segs)
+    {s : Seg} (hs : s ∈ segs) : pieces segs s = [(s.a, s.b)] := by
+  unfold pieces
+  rw [sortFrom_two (L := splitPts segs s) (hall s hs)
+    (show (splitPts segs s).Nodup from nodup_dedup _) (mem_splitPts.mpr (Or.inl rfl))
+    (mem_splitPts.mpr (Or.inr (Or.inl rfl))) (splitPts_trivial hall hno hs)]
+  rfl
+
+theorem preFrom_trivial {all : List Seg} : ∀ (l : List Seg) (i : Nat),
+    (∀ s ∈ l, pieces all s = [(s.a, s.b)]) → preFrom all i l = trivFrom i l := by
+  intro l
+  induction l with
+  | nil => intro i _; rfl
+  | cons s rest ih =>
+    intro i h
+    unfold preFrom trivFrom
+    rw [h s List.mem_cons_self, ih (i + 1) (fun t ht => h t (List.mem_cons_of_mem _ ht))]
+    rfl
+
+theorem dedupEdges_id : ∀ {l : List OutEdge}, l.Pairwise (fun e f => ¬ Same e f) → dedupEdges l = l := by
+  intro l
+  induction l with
+  | nil => intro _; rfl
+  | cons e l ih =>
+    intro h
+    have hp := List.pairwise_cons.mp h
+    unfold dedupEdges
+    rw [ih hp.2]
+    congr 1
+    apply List.filter_eq_self.mpr
+    intro f hf
+    rw [Bool.not_eq_true', sameEdge_false_iff]
+    exact fun hs => hp.1 f hf hs.symm
+
+theorem mem_trivFrom : ∀ (l : List Seg) (i : Nat) (f : OutEdge), f ∈ trivFrom i l →
+    ∃ t ∈ l, f.p = t.a ∧ f.q = t.b := by
+  intro l
+  induction l with
+  | nil => intro i f h; cases h
+  | cons s rest ih =>
+    intro i f h
+    unfold trivFrom at h
+    rcases List.mem_cons.mp h with rfl | h
+    · exact ⟨s, List.mem_cons_self, rfl, rfl⟩
+    · obtain ⟨t, ht, a, b⟩ := ih (i + 1) f h
+      exact ⟨t, List.mem_cons_of_mem _ ht, a, b⟩
+
+theorem trivFrom_pairwise : ∀ (l : List Seg) (i : Nat), (∀ s ∈ l, s.nondeg) →
+    l.Pairwise (fun s t => inter s t = [] ∧ inter t s = []) →
+    (trivFrom i l).Pairwise (fun e f => ¬ Same e f) := by
+  intro l
+  induction l with
+  | nil => intro i _ _; exact List.Pairwise.nil
+  | cons s rest ih =>
+    intro i hnd h
+    have hp := List.pairwise_cons.mp h
+    unfold trivFrom
+    refine List.pairwise_cons.mpr ⟨?_, ih (i + 1) (fun t ht => hnd t (List.mem_cons_of_mem _ ht)) hp.2⟩
+    intro f hf hsame
+    obtain ⟨t, ht, fa, fb⟩ := mem_trivFrom rest (i + 1) f hf
+    have hsn := hnd s List.mem_cons_self
+    have hon : OnSeg t.a t.b s.a := by
+      rcases hsame with ⟨a, _⟩ | ⟨a, _⟩
+      · have : s.a = t.a := a.trans fa
+        rw [this]; exact onSeg_left _ _
+      · have : s.a = t.b := a.trans fb
+        rw [this]; exact onSeg_right _ _
+    exact inter_nonempty_of_common hsn (onSeg_left _ _) hon (hp.1 t ht).1
+
 end PorepyVerif.C29
